@@ -38,7 +38,7 @@ def opLine (i : Inst) (op : String) (v1 v2 : Int) : Option String :=
   let k1 := i.k1; let k2 := i.k2
   let pre := s!"k1={k1} k2={k2}"
   let fc := decide (FitsCommon i.r1 i.r2 k1 k2 v1 v2)
-  let fo := decide (FitsOwn i.r1 i.r2 k1 k2 v1 v2)
+  let fo := fc   -- since the fix of F11/F17 `%` and `<=>` have the same scope as the other operators
   match op with
   | "add" =>
     let r := add i.r1 i.r2 k1 k2 v1 v2
@@ -48,10 +48,10 @@ def opLine (i : Inst) (op : String) (v1 v2 : Int) : Option String :=
     some s!"{pre} compiles={b01 (commonCompiles i.r1 i.r2 k1 k2)} rep={(sumRep i.r1 i.r2).name} val={evalS toString r.val} wrapped={b01 r.wrapped} narrowed={b01 r.narrowed} scope={b01 (fc && decide (DiffFits i.r1 i.r2 k1 k2 v1 v2))}"
   | "mod" =>
     let r := mod i.r1 i.r2 k1 k2 v1 v2
-    some s!"{pre} compiles={b01 (ownCompiles i.r1 i.r2 k1 k2)} rep={(modRep i.r1 i.r2).name} val={evalS toString r.val} wrapped={b01 r.wrapped} narrowed={b01 r.narrowed} scope={b01 (fo && decide (ModDefined i.r1 i.r2 k1 k2 v1 v2))}"
+    some s!"{pre} compiles={b01 (modCompiles i.r1 i.r2 k1 k2)} rep={(modRep i.r1 i.r2).name} val={evalS toString r.val} wrapped={b01 r.wrapped} narrowed={b01 r.narrowed} scope={b01 (fo && decide (ModDefined i.r1 i.r2 k1 k2 v1 v2))}"
   | "cmp3" =>
     let r := spaceship i.r1 i.r2 k1 k2 v1 v2
-    some s!"{pre} compiles={b01 (ownCompiles i.r1 i.r2 k1 k2)} rep=ord val={evalS ordStr r.val} wrapped={b01 r.wrapped} narrowed={b01 r.narrowed} scope={b01 fo}"
+    some s!"{pre} compiles={b01 (modCompiles i.r1 i.r2 k1 k2)} rep=ord val={evalS ordStr r.val} wrapped={b01 r.wrapped} narrowed={b01 r.narrowed} scope={b01 fo}"
   | _ =>
     match opOfName? op with
     | some o =>
@@ -82,12 +82,12 @@ def opNames : List String := ["eq", "ne", "lt", "le", "gt", "ge", "add", "sub", 
 
 /-- Codes of the model's answers for the ten operations at `(v1, v2)`, `none` when the case is out of the
 scope of the corresponding theorem.  The operands are evaluated once per cell through
-`commonPair` / `ownPair`; `AuProofs.C08` (`cmp_val`, `add_val`, `sub_val`, `mod_val`, `spaceship_val`) proves
+`commonPair` / `repCastPair`; `AuProofs.C08` (`cmp_val`, `add_val`, `sub_val`, `mod_val`, `spaceship_val`) proves
 that the operations are exactly these functions of the pairs.  A model answer of `ub` inside the scope is
 coded as `2^64 - 2` (never produced by the harness). -/
 def cellCodes (i : Inst) (k1 k2 : Nat) (v1 v2 : Int) : List (Option Nat) :=
   let fc := decide (FitsCommon i.r1 i.r2 k1 k2 v1 v2)
-  let fo := decide (FitsOwn i.r1 i.r2 k1 k2 v1 v2)
+  let fo := fc   -- since the fix of F11/F17 `%` and `<=>` have the same scope as the other operators
   let ub := M64 - 2
   let c := IntTy.common i.r1 i.r2
   let cp := (commonPair i.r1 i.r2 k1 k2 v1 v2).val
@@ -99,7 +99,7 @@ def cellCodes (i : Inst) (k1 k2 : Nat) (v1 v2 : Int) : List (Option Nat) :=
         | .ok (x, y) => (match (s x y).val with | .ok z => codeInt z | .ub _ => ub)
         | .ub _ => ub)
     else none
-  let op := if fo then some (ownPair i.r1 i.r2 k1 k2 v1 v2).val else none
+  let op := if fo then some (repCastPair i.r1 i.r2 k1 k2 v1 v2).val else none
   let modc : Option Nat :=
     if fo && decide (ModDefined i.r1 i.r2 k1 k2 v1 v2) then
       some (match op with
@@ -184,7 +184,7 @@ def cmdGate (args : List String) : String :=
 /-- `c08gates r1 r2 n1 d1 n2 d2` → the model's compile gates for the two groups of operations. -/
 def cmdGates (args : List String) : String :=
   match parseInst? args with
-  | some i => s!"common={b01 (commonCompiles i.r1 i.r2 i.k1 i.k2)} own={b01 (ownCompiles i.r1 i.r2 i.k1 i.k2)} lookup={b01 (lookupOk i.r1 i.r2 i.k1 i.k2)}"
+  | some i => s!"common={b01 (commonCompiles i.r1 i.r2 i.k1 i.k2)} own={b01 (modCompiles i.r1 i.r2 i.k1 i.k2)} lookup={b01 (lookupOk i.r1 i.r2 i.k1 i.k2)}"
   | none => "bad-op"
 
 end C08Cmd
